@@ -98,12 +98,20 @@ def evaluate(case):
                         continue
                     if not do_chunks:
                         continue
-                    what, val = outcome_of(lambda: list(a.iterchunks(cl, stepsize=step, startindex=start,
-                                                                     endindex=end, include_remainder=rem)))
+                    def consume():
+                        out = []
+                        for c in a.iterchunks(cl, stepsize=step, startindex=start, endindex=end, include_remainder=rem):
+                            owned = isinstance(c, np.ndarray) and not isinstance(c, np.memmap) and bool(c.flags.owndata)
+                            out.append((np.array(c, copy=True), owned))
+                            if owned and c.flags.writeable:
+                                c[...] = 0          # what a consumer does with its own copy must not show up in later chunks
+                        return out
+                    what, val = outcome_of(consume)
                     ok = what == 'returns' and len(val) == len(want) and all(
-                        isinstance(c, np.ndarray) and not isinstance(c, np.memmap) and c.flags.owndata
-                        and c.dtype.str == ref.dtype.str and np.array_equal(c, ref[s:e])
-                        for c, (s, e) in zip(val, want))
+                        owned and c.dtype.str == ref.dtype.str and np.array_equal(c, ref[s:e])
+                        for (c, owned), (s, e) in zip(val, want))
+                    if ok:
+                        val = [c for c, _ in val]
                     if not ok:
                         V.append(viol('frames', 'iterchunks', 'valid', 'chunks differ from a[frame]',
                                       f'iterchunks({params}) does not yield detached copies of a[frame] for {want}',
